@@ -46,11 +46,13 @@ type driveEvent struct {
 	Td        [][2]uint64 `json:"td"`
 	Ndel      [][]any     `json:"ndel"`
 	Nadd      [][]any     `json:"nadd"`
+	Rem       []int       `json:"rem"`   // mod: slots the light client asked to remember
+	Lossy     bool        `json:"lossy"` // hold: taken after undoing a block that overwrote an empty root (known finding C08-F1)
 }
 
 func newEv(ev string, h, i int) driveEvent {
 	return driveEvent{Ev: ev, H: h, I: i, D: []int{}, Roots: []string{}, Pos: [][3]uint64{}, Untracked: []int{},
-		S: []int{}, T: [][2]uint64{}, P: []string{}, Td: [][2]uint64{}, Ndel: [][]any{}, Nadd: [][]any{}}
+		S: []int{}, T: [][2]uint64{}, P: []string{}, Td: [][2]uint64{}, Ndel: [][]any{}, Nadd: [][]any{}, Rem: []int{}}
 }
 
 type driveWorld struct {
@@ -68,6 +70,11 @@ type driveWorld struct {
 	calls  int
 	afterUndo bool
 	pending   []func() driveEvent
+	lcP       utreexo.Proof // the light client's cached proof
+	lcH       []Hash        // and leaf hashes
+	lcBroken  bool
+	lcLossy   bool // the last undo was of a block with a non-empty ToDestroy
+	held      map[int]bool // what the light client was asked to hold (bookkeeping of the requests made)
 }
 
 type driveSaved struct {
@@ -78,6 +85,7 @@ type driveSaved struct {
 	proof  utreexo.Proof
 	roots  []Hash
 	cached []map[int]bool
+	td     []uint64 // ToDestroy of the block (for the light client's undo)
 }
 
 func runDrive(cfg Config, in io.Reader, extra string, workers int) int {
@@ -103,7 +111,7 @@ func runDrive(cfg Config, in io.Reader, extra string, workers int) int {
 		if only >= 0 && h != only {
 			continue
 		}
-		w := &driveWorld{sy: sy, rng: rand.New(rand.NewSource(int64(cfg.Seed)*100003 + int64(h))), out: enc, h: h, live: map[int]bool{}}
+		w := &driveWorld{sy: sy, rng: rand.New(rand.NewSource(int64(cfg.Seed)*100003 + int64(h))), out: enc, h: h, live: map[int]bool{}, held: map[int]bool{}}
 		w.run(maxN, blocks)
 		sum.Lines++
 		sum.Nontrivial++
@@ -292,6 +300,7 @@ func (w *driveWorld) run(maxN, blocks int) {
 				return
 			}
 			w.observe()
+			w.holdEvent()
 			w.proveSome()
 			w.flush()
 		}
@@ -354,7 +363,27 @@ func (w *driveWorld) block(maxN int) {
 		e.Nadd = w.jPosHash(ud.NewAddPos, ud.NewAddHash, Rpost)
 	}, "upd")
 
-	saved := driveSaved{n: w.n, live: map[int]bool{}, d: d, k: k, proof: proof, roots: append([]Hash{}, w.stumps[len(w.stumps)-1].Roots...)}
+	// the light client: remembers a random subset of the additions
+	var rem []uint32
+	remSlots := []int{}
+	for i := 0; i < k; i++ {
+		if w.rng.Intn(3) == 0 {
+			rem = append(rem, uint32(i))
+			remSlots = append(remSlots, int(w.n)+i)
+		}
+	}
+	if !w.lcBroken {
+		newH, err := w.lcP.Update(w.lcH, adds, proof.Targets, rem, ud)
+		w.calls++
+		if err != nil {
+			w.fail([]string{"C07"}, "lightclient", "error", fmt.Sprintf("Proof.Update failed: %v", err))
+			w.lcBroken = true
+		} else {
+			w.lcH = newH
+		}
+	}
+	saved := driveSaved{n: w.n, live: map[int]bool{}, d: d, k: k, proof: proof, roots: append([]Hash{}, w.stumps[len(w.stumps)-1].Roots...),
+		td: append([]uint64{}, ud.ToDestroy...)}
 	for s := range w.live {
 		saved.live[s] = true
 	}
@@ -394,13 +423,17 @@ func (w *driveWorld) block(maxN int) {
 	}
 	w.stack = append(w.stack, saved)
 	m := newEv("mod", w.h, w.i)
-	m.D, m.K = d, k
+	m.D, m.K, m.Rem = d, k, remSlots
 	w.emit(m)
 	for _, s := range d {
 		delete(w.live, s)
+		delete(w.held, s)
 	}
 	for i := 0; i < k; i++ {
 		w.live[int(w.n)+i] = true
+	}
+	for _, x := range remSlots {
+		w.held[x] = true
 	}
 	w.n += uint64(k)
 	w.afterUndo = false
@@ -431,9 +464,26 @@ func (w *driveWorld) undo() {
 			in.cached = c
 		}
 	}
+	w.lcLossy = false
+	if !w.lcBroken {
+		newH, err := w.lcP.Undo(uint64(sv.k), w.n, sv.proof.Targets, dels, w.lcH, sv.td, sv.proof)
+		w.calls++
+		if err != nil {
+			w.fail([]string{"C08"}, "lightclient", "error", fmt.Sprintf("Proof.Undo failed: %v", err))
+			w.lcBroken = true
+		} else {
+			w.lcH = newH
+			w.lcLossy = len(sv.td) > 0
+		}
+	}
 	w.stump = w.stumps[len(w.stumps)-1]
 	w.stumps = w.stumps[:len(w.stumps)-1]
 	w.n, w.live = sv.n, sv.live
+	for x := range w.held {
+		if uint64(x) >= sv.n {
+			delete(w.held, x)
+		}
+	}
 	w.emit(newEv("undo", w.h, w.i))
 	w.afterUndo = true
 }
@@ -463,6 +513,48 @@ func (w *driveWorld) observe() {
 			pe.Pos = append(pe.Pos, [3]uint64{uint64(s), uint64(ri.Row), ri.Idx})
 		}
 		w.emit(pe)
+	}
+}
+
+// holdEvent records what the light client holds.
+func (w *driveWorld) holdEvent() {
+	if w.lcBroken {
+		return
+	}
+	hs := append([]Hash{}, w.lcH...)
+	tg := append([]uint64{}, w.lcP.Targets...)
+	pf := append([]Hash{}, w.lcP.Proof...)
+	Rn, lossy := treeRows(w.n), w.lcLossy
+	w.emitLazy(func(e *driveEvent) {
+		e.Inst, e.Lossy = "lightclient", lossy
+		for _, h := range hs {
+			t := w.sy.T(h)
+			slot := -1
+			if len(t) > 1 && t[0] == 'L' {
+				slot, _ = strconv.Atoi(t[1:])
+			}
+			e.S = append(e.S, slot)
+		}
+		e.T, e.P = w.jTargets(tg, Rn), w.sy.Ts(pf)
+	}, "hold")
+	if w.lcLossy {
+		// known finding C08-F1: leaves may have been lost; put the client back in step
+		// with what it should hold (a full prover's proof of it) so that the rest is checked
+		w.lcLossy = false
+		slots := []int{}
+		for x := range w.held {
+			slots = append(slots, x)
+		}
+		sort.Ints(slots)
+		w.lcH = w.hashes(slots)
+		w.lcP = utreexo.Proof{}
+		if len(slots) > 0 {
+			if pr, err := w.insts[0].P.Prove(w.lcH); err == nil {
+				w.lcP = pr
+			} else {
+				w.lcBroken = true
+			}
+		}
 	}
 }
 
